@@ -51,6 +51,22 @@ category id, with and without prune, explicit / label orders.  Required of every
 transforms as written, and (abs) shown <=> not named by a "hide": true entry and not (prune and
 empty by unweighted respondent counts), labels / shape / is_empty to match (keys whose reading
 needs the id cascade of C19 are checked by (rel) only).  Distribution keys `shared-transforms:*`.
+
+Leg (e), cubes of a NUMERIC measure (motivated by the seeded change C09-10: `CubeMeasures.
+unweighted_cube_counts` fell back on `cube.weighted_valid_counts` when the response carried no
+unweighted valid counts, so the pruning masks of such a slice came from weighted numbers and a row /
+column whose respondents all weigh 0 was pruned although respondents are in it; legs (a)/(b) only
+generated plain counts cubes).  "Emptiness is decided from unweighted counts only (weights play no
+part)" holds whatever the measures of the cube.  Class added: mean / sum / stddev / median cubes
+(with and without a count measure) in the four valid-count renderings of the response - unweighted and
+weighted valid counts, unweighted only, WEIGHTED only (the response with both, less
+`valid_count_unweighted`), none - over CAT / MR pairings (MR x MR included), 2-D, one slice of a 3-D
+cube (CAT table) and strands, on surveys with zero and fractional weights, categories and MR items all
+of whose respondents weigh nothing, the hide / prune / insertion / order transforms of legs (a)/(b).
+Same model run and same absolute oracle: shown <=> not hidden and not (prune and empty by unweighted
+respondent counts computed from the survey - of the slice's table category for 3-D).  The numeric
+variable is valid for every respondent, or missing only where that leaves the set of empty vectors
+unchanged.  Distribution keys `numeric-measure:*`.
 """
 import copy
 import json
@@ -426,6 +442,112 @@ def gen_case(rng, k):
 
 
 # ------------------------------------------------------------------------------------
+# leg (e): cubes of a NUMERIC measure (mean / sum / stddev of a numeric variable)
+# ------------------------------------------------------------------------------------
+#
+# "Emptiness is decided from unweighted counts only (weights play no part)" is said of every
+# cube, whatever its measures.  A numeric-measure response comes in four renderings - with the
+# unweighted AND the weighted valid counts, with the unweighted ones only, with the WEIGHTED
+# ones only (the shape of the *-mean-weighted fixtures), with none - and the library chooses
+# the basis of the pruning masks by which of them are there.  The cases below are ordinary
+# cases of legs (a)/(b) (same transforms generator, same model run, same absolute oracle from
+# the respondents) over such responses: CAT / MR pairings, 2-D, one slice of a 3-D cube
+# (CAT table), strands, on surveys with zero and fractional weights and vectors all of whose
+# respondents weigh nothing.  The numeric variable is valid for every respondent, or missing
+# only where that does not change which vectors are empty (valid counts and counts then
+# prescribe the same display, so the oracle does not have to choose between them).
+
+NUM_LEG = "numeric-measure"
+NUM_VAR = "x"
+NUM_RENDERINGS = (["both", "unweighted_only", "weighted_only", "none"], [2, 2, 4, 1])
+NUM_MEASURES = [("count", "mean"), ("mean",), ("count", "sum"), ("sum",), ("mean", "stddev"),
+                ("count", "mean", "sum"), ("count", "median")]
+
+
+def num_empties(sv, resp, aliases, strand, mrxmr):
+    """empty vectors by unweighted respondent counts over the respondents `resp`"""
+    return py_empties(unweighted_tensor(_SubSurvey(sv, resp), aliases), strand, mrxmr)
+
+
+def num_weightless_item(rng, sv, v):
+    """an MR item answered (selected / not selected) by weightless respondents only"""
+    k = rng.randrange(len(v.items))
+    for r in sv.resp:
+        a = r["ans"][v.alias]
+        if a[k] != MIS:
+            if rng.random() < 0.5:
+                a[k] = MIS
+            else:
+                r["w"] = Fraction(0)
+
+
+def gen_num_case(rng, k):
+    x = rng.random()
+    layout = "strand" if x < 0.15 else "3-D" if x < 0.45 else "2-D"
+    strand = layout == "strand"
+
+    def pick(alias, nmax):
+        if rng.random() < 0.6:
+            return gen.make_cat(rng, alias, n_valid=rng.randint(1, nmax))
+        return make_mr(rng, alias, rng.randint(1, nmax))
+
+    variables = [pick("r", 5)] if strand else [pick("r", 4), pick("c", 4)]
+    aliases = [v.alias for v in variables]
+    roles = ["elements" if v.kind == "cat" else "items" for v in variables]
+    table = gen.make_cat(rng, "t", n_valid=rng.randint(1, 3)) if layout == "3-D" else None
+    truth = [{} for _ in roles]
+    transforms = {}
+    for n, role in enumerate(roles):
+        transforms[["rows_dimension", "columns_dimension"][n]] = dim_transforms(rng, variables[n], role, truth[n])
+    allv = ([table] if table is not None else []) + variables
+    sv = gen.Survey(allv, rng.choice([0, 3, 6, 12, 25, 40]), rng, weighted=rng.random() < 0.85,
+                    numvars=(NUM_VAR,))
+    shape_survey(rng, sv, variables)
+    if sv.weighted:
+        for v in variables:
+            if v.kind == "mr" and rng.random() < 0.3:
+                num_weightless_item(rng, sv, v)
+    si = 0
+    group = sv.resp
+    if table is not None:
+        tp = valid_positions(table)
+        si = rng.randrange(len(tp))
+        group = [r for r in sv.resp if r["ans"][table.alias] == tp[si]]
+    mrxmr = not strand and variables[0].kind == "mr" and variables[1].kind == "mr"
+    emp = num_empties(sv, group, aliases, strand, mrxmr)
+    valid = lambda rs: [r for r in rs if r["num"][NUM_VAR] is not None]  # noqa: E731
+    filled = rng.random() < 0.65 or num_empties(sv, valid(group), aliases, strand, mrxmr) != emp
+    if filled:
+        for r in sv.resp:
+            if r["num"][NUM_VAR] is None:
+                r["num"][NUM_VAR] = Fraction(rng.randint(-8, 40), rng.choice([1, 2, 4]))
+    measures = rng.choice(NUM_MEASURES)
+    rendering = rng.choices(*NUM_RENDERINGS)[0]
+    if not sv.weighted and rendering in ("both", "weighted_only"):
+        rendering = "unweighted_only"                # an unweighted data set has no weighted valid counts
+    vc = {"both": True, "unweighted_only": "unweighted_only", "weighted_only": True, "none": False}[rendering]
+    resp = gen.cube_response(sv, [v.alias for v in allv], measures=measures, numvar=NUM_VAR, valid_counts=vc)
+    meas = resp["result"]["measures"]
+    if rendering == "weighted_only":
+        # gen.cube_response has no such option: the response with both, less the unweighted ones
+        del meas["valid_count_unweighted"]
+    heavy = [r for r in valid(group) if r["w"] > 0]
+    emp_w = num_empties(sv, heavy, aliases, strand, mrxmr)
+    weightless = [sorted(set(emp_w[n]) - set(emp[n])) for n in range(len(emp))]
+    sub = _SubSurvey(sv, group)
+    _, wc = gen.tabulate(sub, aliases, weight=True)
+    _, uc = gen.tabulate(sub, aliases, weight=False)
+    return {"leg": NUM_LEG, "k": k, "strand": strand, "slice": si, "response": resp, "transforms": transforms,
+            "u": unweighted_tensor(sub, aliases), "truth": truth, "mrxmr": mrxmr,
+            "weighted_differs": any((a == 0) != (b == 0) for a, b in zip(wc, uc)),
+            "kinds": [v.kind for v in variables],
+            "numeric": {"layout": layout, "measures": list(measures), "rendering": rendering,
+                        "valid_count_measures": sorted(m for m in meas if m.startswith("valid_count")),
+                        "weighted": sv.weighted, "numeric_missing": not filled,
+                        "vectors_with_weightless_respondents_only": weightless}}
+
+
+# ------------------------------------------------------------------------------------
 
 
 def valid_sources(m):
@@ -453,7 +575,7 @@ def ordering_term(m):
 
 def prepare(case):
     strand = case["strand"]
-    r = impl.guarded(lambda: impl.partition(case["response"], case["transforms"]))
+    r = impl.guarded(lambda: impl.partition(case["response"], case["transforms"], k=case.get("slice", 0)))
     if r[0] != "ok":
         return ("skip", "partition-raises:%s" % r[1])
     part = r[1]
@@ -551,9 +673,37 @@ def check_case(case, prep, results):
     return out
 
 
+def num_dist(rep, case, emp):
+    """evidence distribution of a numeric-measure case (leg (e))"""
+    nm = case["numeric"]
+    p = NUM_LEG + ":"
+    rep.dist(p + "cases")
+    rep.dist(p + "layout:" + nm["layout"])
+    rep.dist(p + "kinds:" + "x".join(case["kinds"]))
+    rep.dist(p + "measures:" + "+".join(nm["measures"]))
+    rep.dist(p + "valid-counts:" + nm["rendering"] + (",weighted survey" if nm["weighted"] else ",unweighted survey"))
+    if nm["numeric_missing"]:
+        rep.dist(p + "numeric-value-missing-for-some(emptiness unchanged)")
+    hit = False
+    for n, tr in enumerate(case["truth"]):
+        wl = nm["vectors_with_weightless_respondents_only"][n]
+        rep.dist(p + "hide=%s,prune=%s" % (bool(tr["hidden"]), tr["prune"]))
+        if tr["prune"] and emp[n]:
+            rep.dist(p + "prune-with-empty-vector")
+        if wl:
+            rep.dist(p + "vector-with-weightless-respondents-only")
+            if tr["prune"]:
+                rep.dist(p + "vector-with-weightless-respondents-only+prune")
+                if [i for i in wl if i not in tr["hidden"]]:
+                    rep.dist(p + "vector-with-weightless-respondents-only+prune+not-hidden:valid-counts=" + nm["rendering"])
+                    hit = hit or nm["rendering"] == "weighted_only"
+    if hit:
+        rep.dist(p + "weighted-only-valid-counts+prune+weightless-vector:" + nm["layout"])
+
+
 def _replayable(case):
     return {k: case[k] for k in ("response", "transforms", "strand", "u", "truth", "mrxmr",
-                                 "kinds", "weighted_differs", "k")}
+                                 "kinds", "weighted_differs", "k", "leg", "slice", "numeric") if k in case}
 
 
 def run_cases(rep, cases):
@@ -649,9 +799,15 @@ def run_cases(rep, cases):
             if gone and len(gone) < len(der):
                 rep.dist("derived:one-gone-one-shown")
         rep.sample({"transforms": case["transforms"], "kinds": case["kinds"], "u": case["u"]})
+        ctx = {}
+        if case.get("leg") == NUM_LEG:
+            ctx = {"leg": NUM_LEG}
+            num_dist(rep, case, emp)
         for kind, what, detail in check_case(case, p, res):
+            if ctx:
+                detail = dict(detail, numeric=case["numeric"], slice=case["slice"])
             rep.violation(kind, _replayable(case), dict(detail, what=what),
-                          {"what": what.split(".")[-1], "kinds": "x".join(case["kinds"])})
+                          dict(ctx, what=what.split(".")[-1], kinds="x".join(case["kinds"])))
     return coq_s, len(terms)
 
 
@@ -1088,6 +1244,10 @@ def run(tier, seed):
     n_cases = 400 if tier == "quick" else 6000
     rng = random.Random(seed)
     cases = [gen_case(rng, k) for k in range(n_cases)]
+    # ---- (e) numeric-measure cubes in the four valid-count renderings (after seeded change C09-10), own stream
+    n_num = 220 if tier == "quick" else 3500
+    rng_num = random.Random("%s/%s" % (NUM_LEG, seed))
+    cases += [gen_num_case(rng_num, k) for k in range(n_num)]
     coq_s, n_terms = run_cases(rep, cases)
     n_seq = 250 if tier == "quick" else 4000
     rng_seq = random.Random("%s/%s" % (SEQ_LEG, seed))    # own stream: leg (a)/(b) cases stay as they were
@@ -1124,8 +1284,16 @@ def run(tier, seed):
         "spelling of any cube (alias, category id), hide: true 85% / false, None 10% / no flag 5%, prune 50%, "
         "explicit order 25%, label sort 10%; read interleaved 70%, all cubes built first 20%, read in "
         "reverse 10%; every sequence is run a second time with a pristine deep copy per cube (reference); "
-        "non-trivial = an id key hides an item in two cubes with other aliases, or a cube hides / prunes"
-    ).replace("N_SEQ", str(n_seq))
+        "non-trivial = an id key hides an item in two cubes with other aliases, or a cube hides / prunes.  "
+        "Leg (e) (numeric-measure:* keys, own random stream): N_NUM cases of legs (a)/(b) over numeric-measure "
+        "responses: strand 15% / one slice of a 3-D cube with a CAT table of 1..3 categories 30% / 2-D 55%, each "
+        "dimension CAT 60% / MR 40% of 1..4 (strand 1..5) elements, surveys of 0..40 respondents, 85% weighted, "
+        "shaped like above plus (30% of the MR dimensions) an item answered by weightless respondents only; measures "
+        "count+mean, mean, count+sum, sum, mean+stddev, count+mean+sum, count+median of a numeric variable; valid "
+        "counts both / unweighted only / weighted only / none weighted 2:2:4:1 (unweighted surveys: unweighted only "
+        "or none); numeric value missing for 20% of the respondents in at most 35% of the cases and only when the "
+        "empty vectors of the slice are the same by valid counts and by counts"
+    ).replace("N_SEQ", str(n_seq)).replace("N_NUM", str(n_num))
     rep.cov["coq_eval_seconds"] = round(coq_s, 2)
     rep.cov["model_terms_evaluated"] = n_terms
     rep.assumptions = [
@@ -1134,7 +1302,9 @@ def run(tier, seed):
         "but parse to a number the id cascade could still read (a position, \"000k\" against element id k) "
         "and elements named by entries with different flags are checked against the fresh-copy reference only; "
         "numeric-array cubes have positive counts everywhere (nothing is empty, nothing may be pruned)",
-        "unweighted counts are natural numbers (counts of respondents); valid-count measures not generated",
+        "unweighted counts are natural numbers (counts of respondents); valid-count measures are generated by leg (e) "
+        "only, where a respondent without a numeric value never decides whether a vector is empty (the unweighted "
+        "valid counts and the unweighted counts prescribe the same display)",
         "for array dimensions the shimmed ids / hidden set are taken from the implementation for the MODEL "
         "run (C19 owns the id translation); the ORACLE uses the generator's own record of what it hid",
         "the translation of an MR insertion carrying hide: true into a hide flag on its derived item "
